@@ -3,6 +3,7 @@
 from __future__ import annotations
 
 import ast
+import textwrap
 from collections import Counter
 
 from ..callgraph import get_callgraph
@@ -1130,6 +1131,181 @@ def walk_stmt(s):
 
 
 
+# ---------------------------------------------------------------------------
+# normal form of a function before fingerprinting: helpers inlined, conditional expressions as branches
+
+
+class _Rename(ast.NodeTransformer):
+    def __init__(self, mapping: dict):
+        self.mapping = mapping
+
+    def visit_Name(self, node):
+        if node.id in self.mapping:
+            return ast.copy_location(ast.Name(id=self.mapping[node.id], ctx=node.ctx), node)
+        return node
+
+
+def _fresh(fi: FunctionInfo):
+    """a private, unlinked copy of the function's AST (re-parsed, line numbers kept)"""
+    seg = ast.get_source_segment(fi.module.src, fi.node)
+    if seg is None:
+        raise Unsupported(f"no source segment for {fi.fq}")
+    tree = ast.parse(textwrap.dedent(" " * fi.node.col_offset + seg))
+    node = tree.body[0]
+    ast.increment_lineno(node, fi.node.lineno - 1)
+    return node
+
+
+def _blocks(node):
+    for n in ast.walk(node):
+        for fld in ("body", "orelse", "finalbody"):
+            b = getattr(n, fld, None)
+            if isinstance(b, list) and b and isinstance(b[0], ast.stmt):
+                yield b
+        if isinstance(n, ast.Try):
+            for h in n.handlers:
+                yield h.body
+
+
+def _inline_call(st, fi: FunctionInfo, recv: str | None, counter: list, stack: tuple):
+    """statements replacing ``st`` when it is `helper(...)` / `x = helper(...)` on an unpaired module helper that
+    returns only as its last statement; None when the statement is not of that shape"""
+    m = fi.module
+    if isinstance(st, ast.Expr) and isinstance(st.value, ast.Call):
+        call, target = st.value, None
+    elif isinstance(st, ast.Assign) and len(st.targets) == 1 and isinstance(st.targets[0], ast.Name) and isinstance(st.value, ast.Call):
+        call, target = st.value, st.targets[0].id
+    else:
+        return None
+    f = call.func
+    if not isinstance(f, ast.Name) or f.id in CANON or f.id in stack:
+        return None
+    h = m.functions.get(f.id)
+    if h is None or h.is_lambda or h.parent_func is not None or h.cls is not None or h.is_generator():
+        return None
+    if recv is None or not any(isinstance(a, ast.Name) and a.id == recv for a in call.args):
+        return None  # only helpers that work on the stream are part of the scanner
+    if any(isinstance(a, ast.Starred) for a in call.args) or any(k.arg is None for k in call.keywords):
+        return None
+    hn = _fresh(h)
+    body = list(hn.body)
+    if body and isinstance(body[0], ast.Expr) and isinstance(body[0].value, ast.Constant) and isinstance(body[0].value.value, str):
+        body = body[1:]
+    rets = [r for b in body for r in ast.walk(b) if isinstance(r, ast.Return)]
+    nested = [d for b in body for d in ast.walk(b) if isinstance(d, (ast.FunctionDef, ast.AsyncFunctionDef, ast.Lambda, ast.ClassDef))]
+    if nested or len(rets) > 1 or (rets and rets[0] is not body[-1]):
+        return None
+    counter[0] += 1
+    tag = f"__h{counter[0]}_"
+    a = hn.args
+    params = [x.arg for x in a.posonlyargs + a.args]
+    if a.vararg or a.kwarg or a.kwonlyargs:
+        return None
+    bound: dict = {}
+    for p, arg in zip(params, call.args):
+        bound[p] = arg
+    for k in call.keywords:
+        bound[k.arg] = k.value
+    defaults = dict(zip(reversed(params), reversed(a.defaults)))
+    pre = []
+    mapping: dict = {}
+    for p in params:
+        arg = bound.get(p, defaults.get(p))
+        if arg is None:
+            return None
+        if isinstance(arg, ast.Name):
+            mapping[p] = arg.id
+        else:
+            mapping[p] = tag + p
+            pre.append(ast.Assign(targets=[ast.Name(id=tag + p, ctx=ast.Store())], value=arg, lineno=st.lineno, col_offset=st.col_offset))
+    for b in body:
+        for n in ast.walk(b):
+            for nm in _assigned(n) if isinstance(n, ast.stmt) else ():
+                if nm not in mapping:
+                    mapping[nm] = tag + nm
+    out = pre
+    for b in body:
+        b = _Rename(mapping).visit(b)
+        if isinstance(b, ast.Return):
+            if target is not None:
+                out.append(ast.Assign(targets=[ast.Name(id=target, ctx=ast.Store())], value=b.value if b.value is not None else ast.Constant(value=None)))
+            elif b.value is not None:
+                out.append(ast.Expr(value=b.value))
+        else:
+            out.append(b)
+    if target is not None and not rets:
+        out.append(ast.Assign(targets=[ast.Name(id=target, ctx=ast.Store())], value=ast.Constant(value=None)))
+    for s_ in out:
+        for n in ast.walk(s_):
+            if hasattr(n, "lineno") or isinstance(n, (ast.stmt, ast.expr)):
+                n.lineno = n.end_lineno = st.lineno
+                n.col_offset = n.end_col_offset = st.col_offset
+    return out, f.id
+
+
+def _branch_ifexp(st):
+    """`f(a if c else b)` / `x = a if c else b` as an if/else statement; None when not of that shape"""
+
+    def both(make):
+        return ast.If(test=ie.test, body=[make(ie.body)], orelse=[make(ie.orelse)])
+
+    if isinstance(st, ast.Expr) and isinstance(st.value, ast.Call) and len(st.value.args) == 1 and not st.value.keywords and isinstance(st.value.args[0], ast.IfExp):
+        ie, call = st.value.args[0], st.value
+        new = both(lambda v: ast.Expr(value=ast.Call(func=call.func, args=[v], keywords=[])))
+    elif isinstance(st, ast.Assign) and isinstance(st.value, ast.IfExp):
+        ie = st.value
+        new = both(lambda v: ast.Assign(targets=st.targets, value=v))
+    else:
+        return None
+    for n in ast.walk(new):
+        if not hasattr(n, "lineno") and isinstance(n, (ast.stmt, ast.expr)):
+            n.lineno = n.end_lineno = st.lineno
+            n.col_offset = n.end_col_offset = st.col_offset
+    return [new]
+
+
+def prepared(fi: FunctionInfo, inline: bool) -> FunctionInfo:
+    """the function in the normal form the fingerprints are taken from"""
+    cached = fi.__dict__.get("_c07_prepared")
+    if cached is not None and cached[0] == inline:
+        return cached[1]
+    node = _fresh(fi)
+    a = node.args.args
+    recv = a[0].arg if a else None
+    counter = [0]
+    stack = (fi.name,)
+    for _ in range(4):  # nested helpers: a few rounds are plenty
+        changed = False
+        for blk in list(_blocks(node)):
+            i = 0
+            while i < len(blk):
+                st = blk[i]
+                rep_ = _branch_ifexp(st)
+                if rep_ is None and inline:
+                    r = _inline_call(st, fi, recv, counter, stack)
+                    if r is not None:
+                        rep_, name = r
+                        stack = stack + (name,) if counter[0] > 8 else stack
+                if rep_ is not None:
+                    blk[i : i + 1] = rep_ or [ast.Pass(lineno=st.lineno, col_offset=st.col_offset)]
+                    changed = True
+                    i += len(rep_) or 1
+                else:
+                    i += 1
+        if not changed:
+            break
+    ast.fix_missing_locations(node)
+    for p in ast.walk(node):
+        for c in ast.iter_child_nodes(p):
+            c._parent = p  # type: ignore[attr-defined]
+            c._mod = fi.module  # type: ignore[attr-defined]
+    node._parent = None  # type: ignore[attr-defined]
+    node._mod = fi.module  # type: ignore[attr-defined]
+    out = FunctionInfo(fi.module, fi.qualname, node, fi.cls, None)
+    fi.__dict__["_c07_prepared"] = (inline, out)
+    return out
+
+
 # Deliberate deviations from PyYAML: (options function, fingerprint kind) -> side -> {entry: (count, reason)}.
 # An entry here is *allowed*, never required, so removing a deviation keeps the rule quiet.
 _DOCSEP = "option blocks have no document markers: the ---/... look-ahead of PyYAML is not ported"
@@ -1159,16 +1335,18 @@ def r4_fingerprints(corpus: Corpus, rep: Report, tier: str) -> None:
     # the pairing table must cover exactly the scanner functions of the module
     have = {q for q, f in m.functions.items() if q.startswith("_scan_") and not f.is_lambda and f.parent_func is None}
     want = {o for o, _, _ in PAIRS if not o.startswith("StreamBuffer.")}
-    if have != want:
-        rep.error("C07.R4", f"pairing table is stale: scanner functions added {sorted(have - want)} / removed {sorted(want - have)}")
+    if want - have:
+        rep.error("C07.R4", f"pairing table is stale: scanner functions removed {sorted(want - have)}")
+    for extra in sorted(have - want):
+        rep.listed("C07.R4", f"{m.name}:{extra}|unpaired helper", m.functions[extra].site(), "no PyYAML counterpart: judged in place, inlined into the ported function that calls it")
     for o, rel, y in PAIRS:
         sib = corpus.sibling(rel)
         rep.saw_sibling(rel)
         yf = sib.func(y)
         of = m.func(o)
         rep.saw_function(of.fq)
-        a = Side(of, False).fingerprints()
-        b = Side(yf, True, sib.cls(y.split(".")[0])).fingerprints()
+        a = Side(prepared(of, True), False).fingerprints()
+        b = Side(prepared(yf, False), True, sib.cls(y.split(".")[0])).fingerprints()
         # does the port lack anything PyYAML has (beyond the tabled deviations)?  If not, unexplained extras are pure
         # additions (a redundant guard, an early return): undecidable here -> ANALYSIS-ERROR, not VIOLATION.
         lacks = False
